@@ -528,13 +528,19 @@ fn run_local_worker(worker: &Worker, id: usize, parker: Parker, abort_signal: Si
 
             #[cfg(feature = "verif-hooks")]
             crate::verif_hooks::probe(crate::verif_hooks::site::MT_WORKER_BEFORE_DEACTIVATE, id);
+            // Update the global message counter *before* attempting to
+            // deactivate the worker: once the last worker is marked inactive
+            // the executor thread may read the counter at any time, and only
+            // the operations that precede the (Release) deactivation are
+            // guaranteed to be visible to it.
+            update_msg_count();
+
             // Try to deactivate the worker.
             if pool_manager.try_set_worker_inactive(id) {
                 // No need to call `begin_worker_search()`: this was done by the
                 // thread that unparked the worker.
                 #[cfg(feature = "verif-hooks")]
                 crate::verif_hooks::probe(crate::verif_hooks::site::MT_WORKER_DEACTIVATED, id);
-                update_msg_count();
                 parker.park();
                 #[cfg(feature = "verif-hooks")]
                 crate::verif_hooks::probe(crate::verif_hooks::site::MT_WORKER_UNPARKED, id);
@@ -550,7 +556,6 @@ fn run_local_worker(worker: &Worker, id: usize, parker: Parker, abort_signal: Si
                 pool_manager.set_all_workers_inactive();
                 #[cfg(feature = "verif-hooks")]
                 crate::verif_hooks::probe(crate::verif_hooks::site::MT_WORKER_ALL_INACTIVE, id);
-                update_msg_count();
                 #[cfg(feature = "verif-hooks")]
                 crate::verif_hooks::probe(crate::verif_hooks::site::MT_WORKER_BEFORE_UNPARK_MAIN, id);
                 executor_unparker.unpark();
